@@ -10,7 +10,11 @@ import "fmt"
 //             nested literal, deferred nested literal, function body), named result updated
 //   stack     systematic: defer stacks of 1..3 entries over the callee kinds followed by return / panic
 //   random    seeded random function tables respecting the static rules below
-//   deferred-panic / defer-arg-alias / repanic-wrap / recover-stale / closure-lock
+//   corpus:closure-lock  main stream: a deferred (or called) literal calls a closure created by the
+//             deferring activation; this hung before /repo abe7a69 (finding closure-lock, fixed);
+//             the former witness and its neighbourhood stay here so that a return of the hang is reported;
+//             random literals call such closures too
+//   deferred-panic / defer-arg-alias / repanic-wrap / recover-stale / defer-forward-lit
 //             small neighbourhood streams aimed at the regions of the known findings
 //
 // Static rules of the main stream (conservative versions of the dynamic side conditions of
@@ -221,7 +225,7 @@ func c06R2(p c06Prog, body []c06Stmt) bool {
 
 func c06R3(body []c06Stmt) bool {
 	for _, s := range body {
-		if s.K == "repanic" || s.K == "recloop" || s.K == "callclo" {
+		if s.K == "repanic" || s.K == "recloop" {
 			return false
 		}
 	}
@@ -285,7 +289,10 @@ func (g *c06Gen) randBody(p *c06Prog, self int, opts c06RandOpts) []c06Stmt {
 		}
 		switch {
 		case k < 16:
-			if g.r.chance(50) {
+			if lit && g.r.chance(15) {
+				// call of a closure created by the enclosing activation
+				body = append(body, c06Stmt{K: "callclo", Tag: g.newTag()})
+			} else if g.r.chance(50) {
 				up := lit && g.r.chance(50)
 				body = append(body, sPrintVar(g.newTag(), up, g.r.intn(5)))
 			} else {
@@ -345,7 +352,7 @@ func (g *c06Gen) repair(p *c06Prog, self int, esc []bool) {
 		for k := range body {
 			s := &body[k]
 			switch {
-			case s.K == "repanic" || s.K == "recloop" || s.K == "callclo":
+			case s.K == "repanic" || s.K == "recloop":
 				*s = sPrint(g.newTag())
 			case (s.K == "defer" || s.K == "deferhost") && s.A.Own && c06SetsLater(*p, body, k+1, s.A.I):
 				s.A = aConst(int64(10 + g.r.intn(80)))
@@ -683,7 +690,8 @@ func (g *c06Gen) recoverStale() c06Prog {
 	return c06Prog{Fns: fns}
 }
 
-// closure-lock: a deferred literal calls a closure created by the deferring activation.
+// corpus closure-lock (main stream since /repo abe7a69): a deferred literal calls a closure created by
+// the deferring activation.
 func (g *c06Gen) closureLock() c06Prog {
 	nt := g.newTag
 	fns := []c06Fn{{Kind: "named"}, {Kind: "named"}}
@@ -712,6 +720,10 @@ func c06Generate(r *rng, tier string, sm *summary) []c06Case {
 
 	// the witnesses of the _refuted theorems of coq/Props/C06.v, replayed on the implementation
 	for _, w := range c06Witnesses() {
+		if w.region == "" {
+			add("", "corpus:"+w.name, w.p)
+			continue
+		}
 		add(w.region, "witness:"+w.region, w.p)
 	}
 
@@ -811,7 +823,7 @@ func c06Generate(r *rng, tier string, sm *summary) []c06Case {
 		add("recover-stale", "recover-stale", g.recoverStale())
 		g.tag, g.val = 0, 0
 		if i%2 == 0 {
-			add("closure-lock", "closure-lock", g.closureLock())
+			add("", "corpus:closure-lock", g.closureLock())
 		}
 	}
 	// forward declaration order: main-stream tables in which a literal defers a named function or method
@@ -851,33 +863,34 @@ func c06Generate(r *rng, tier string, sm *summary) []c06Case {
 }
 
 type c06Witness struct {
-	region string
+	region string // "" = repaired finding kept as a corpus case of the main stream
 	p      c06Prog
+	name   string
 }
 
 // c06Witnesses are the programs w_* / prog_arg_fixed 1 2 1 of Defer/Proofs.v.
 func c06Witnesses() []c06Witness {
 	n, l := "named", "lit"
 	return []c06Witness{
-		{"deferred-panic", c06Prog{Fns: []c06Fn{
+		{region: "deferred-panic", p: c06Prog{Fns: []c06Fn{
 			{n, []c06Stmt{sDefer(1, aConst(0)), sDefer(2, aConst(0)), sPanic(c06Base{Kind: "int", Z: 1})}},
 			{n, []c06Stmt{sPrint(1)}},
 			{n, []c06Stmt{sPrint(2), sPanic(c06Base{Kind: "str", Z: 2})}}}}},
-		{"defer-arg-alias", c06Prog{Fns: []c06Fn{
+		{region: "defer-arg-alias", p: c06Prog{Fns: []c06Fn{
 			{n, []c06Stmt{sSet(false, c06VarX, 1), sDefer(1, aOwn(c06VarX)), sSet(false, c06VarX, 2)}},
 			{n, []c06Stmt{sPrintVar(1, false, c06VarA)}}}}},
-		{"repanic-wrap", c06Prog{Fns: []c06Fn{
+		{region: "repanic-wrap", p: c06Prog{Fns: []c06Fn{
 			{n, []c06Stmt{sDefer(3, aConst(0)), sCall(1, aConst(0), false, 0)}},
 			{n, []c06Stmt{sDefer(2, aConst(0)), sPanic(c06Base{Kind: "int", Z: 5})}},
 			{l, []c06Stmt{sRecover(), sRepanic()}},
 			{l, []c06Stmt{sRecover()}}}}},
-		{"recover-stale", c06Prog{Fns: []c06Fn{
+		{region: "recover-stale", p: c06Prog{Fns: []c06Fn{
 			{n, []c06Stmt{sDefer(1, aConst(0)), sPanic(c06Base{Kind: "int", Z: 7})}},
 			{l, []c06Stmt{{K: "recloop"}}}}}},
-		{"closure-lock", c06Prog{Fns: []c06Fn{
+		{region: "", name: "closure-lock", p: c06Prog{Fns: []c06Fn{ // w_closure_lock: hung before /repo abe7a69
 			{n, []c06Stmt{sDefer(1, aConst(0)), sPrint(1)}},
 			{l, []c06Stmt{{K: "callclo", Tag: 2}, sPrint(3)}}}}},
-		{"defer-forward-lit", c06Prog{Fwd: true, Fns: []c06Fn{
+		{region: "defer-forward-lit", p: c06Prog{Fwd: true, Fns: []c06Fn{
 			{n, []c06Stmt{sCall(1, aConst(0), false, 0), sPrint(1)}},
 			{l, []c06Stmt{sDefer(2, aConst(4))}},
 			{n, []c06Stmt{sPrintVar(2, false, c06VarA)}}}}},
